@@ -22,7 +22,9 @@ func (c *String) SetValue(str string) {
 
 // GetValue returns the value as string
 func (c *String) GetValue() string {
-	return c.Characteristic.GetValue().(string)
+	// A characteristic which is not readable (e.g. identify) does not store a value
+	value, _ := c.Characteristic.GetValue().(string)
+	return value
 }
 
 // OnValueRemoteGet calls fn when the value was read by a client.
